@@ -162,7 +162,10 @@ def _format_value(v, tdm=False):
         # the expression contains free parameters: enclose each of them in braces,
         # matching whole identifiers only (not parts of other names or of numbers);
         # SymPy's imaginary unit is written as the Blackbird literal 1j by the printer
+        # (a symbol named like a register reference, e.g. q0 inside a list value, is a
+        # register: the grammar does not admit such a name as a parameter)
         names = {str(p) for p in v.free_symbols} if isinstance(v, sym.Expr) else set()
+        names = {n for n in names if not re.fullmatch(r"q[0-9]+", n)}
 
         def _identifier(m):
             if m.group(0) in names:
